@@ -348,6 +348,7 @@ int main()
     std::fflush(stdout);
     pid_t pid = fork();
     if(pid == 0) {
+      ::alarm(60); // a history / scenario that hangs ends as 'crash signal 14' instead of blocking the check
       runHistory(ops);
       std::fflush(stdout);
       _exit(0);
